@@ -373,7 +373,11 @@ def match(subject: p.Expression,
           ) -> Iterator[Mapping[str, p.Expression | ScalarT]]:
     from matchpy import Pattern, match
 
-    from .tofrom import FromMatchpyExpressionMapper, ToMatchpyExpressionMapper
+    from .tofrom import (
+        FromMatchpyExpressionMapper,
+        ToMatchpyExpressionMapper,
+        from_matchpy_binding,
+    )
 
     if to_matchpy_expr is None:
         to_matchpy_expr = ToMatchpyExpressionMapper()
@@ -385,7 +389,7 @@ def match(subject: p.Expression,
     matches = match(m_subject, m_pattern)
 
     for subst in matches:
-        yield {name: from_matchpy_expr(expr)
+        yield {name: from_matchpy_binding(from_matchpy_expr, expr)
                for name, expr in subst.items()}
 
 
@@ -398,7 +402,11 @@ def match_anywhere(subject: p.Expression,
                                  ]:
     from matchpy import Pattern, match_anywhere
 
-    from .tofrom import FromMatchpyExpressionMapper, ToMatchpyExpressionMapper
+    from .tofrom import (
+        FromMatchpyExpressionMapper,
+        ToMatchpyExpressionMapper,
+        from_matchpy_binding,
+    )
 
     if to_matchpy_expr is None:
         to_matchpy_expr = ToMatchpyExpressionMapper()
@@ -410,7 +418,7 @@ def match_anywhere(subject: p.Expression,
     matches = match_anywhere(m_subject, m_pattern)
 
     for subst, path in matches:
-        yield ({name: from_matchpy_expr(expr)
+        yield ({name: from_matchpy_binding(from_matchpy_expr, expr)
                 for name, expr in subst.items()},
                from_matchpy_expr(_get_operand_at_path(m_subject, path)))
 
